@@ -109,7 +109,7 @@ PROPS["C04"] = dict(
                "growth per container) are accepted as observed and pinned per container kind, see DESIGN C04.",
     quick=[("asan", 16, 36), ("plain", 8, 36)],
     thorough=[("asan", 16, 500), ("plain", 16, 1500), ("memcheck", 8, 3, {"budget": 900})],
-    floors={"quick": {"array_growth_reallocations": 10, "array_shrink_reallocations": 10, "push_at_front": 5,
+    floors={"quick": {"array_growth_reallocations": 10, "array_shrink_reallocations": 10, "push_at_front": 5, "push_at_0_on_an_empty_list": 20,
                       "push_at_last_index": 5, "pop_at_front": 5, "pop_at_last_index": 5, "sorts_with_ties": 5,
                       "rem_with_duplicates": 5, "concat": 5, "assign": 5, "copy": 5, "push_at_negative": 5}},
     rule="case = one Array/List/Tuple driven through 30-220 (thorough: up to 1800) random in-range operations, oracle "
@@ -261,7 +261,7 @@ PROPS["C06"] = dict(
                "the latest at teardown. Probe destructors allocate nothing.",
     quick=[("asan", 16, 45), ("plain", 8, 90)],
     thorough=[("asan", 16, 900), ("plain", 16, 3000), ("memcheck", 8, 3, {"budget": 900})],
-    floors={"quick": {"garbage_pairs_owner_swept_before_owned": 20, "boxes_made_inside_stop_window": 100, "roots_parked_off_the_stack": 200, "boxes_owning_a_raw_object": 100, "containers_of_boxes_inside_stop_window": 100, "garbage_pairs_owned_swept_before_owner": 20,
+    floors={"quick": {"garbage_pairs_owner_swept_before_owned": 20, "boxes_made_inside_stop_window": 100, "roots_parked_off_the_stack": 200, "teardowns_with_the_collector_stopped": 20, "boxes_owning_a_raw_object": 100, "containers_of_boxes_inside_stop_window": 100, "garbage_pairs_owned_swept_before_owner": 20,
                       "deletions_inside_stop_window": 10, "allocations_inside_stop_window": 10,
                       "worker_teardowns_with_live_garbage": 50, "process_teardowns_with_live_garbage": 50,
                       "del_root": 20, "del_raw": 20, "del_of_box": 10, "containers_of_boxes": 20,
@@ -291,7 +291,7 @@ PROPS["C05"] = dict(
     floors={"quick": {"table_replace_under_collision": 20, "table_states_with_25_or_more_bindings": 20,
                       "cross_kind_assigns": 10, "same_kind_assigns": 10, "copies": 20, "clears": 20,
                       "sort_swap_moves": 10, "concats": 10, "box_container_operations": 200,
-                      "box_containers_deleted": 20, "box_containers_left_to_the_collector": 20, "cases_with_collector_stopped": 5, "tree_updates": 20}},
+                      "box_containers_deleted": 20, "box_containers_left_to_the_collector": 20, "box_slots_given_what_they_hold": 100, "cases_with_collector_stopped": 5, "tree_updates": 20}},
     rule="case = 8 containers driven through 40-200 (thorough: up to 540) random operations with the ledger and model "
          "oracles after every operation, or one Box container through 40-160 operations; distinct = hash of the "
          "operation list; non-trivial = at least 20 operations",
